@@ -29,6 +29,7 @@ type Gen struct {
 	defs     []*refDef
 	nlabel   int
 	NoTabs   bool
+	ml       bool // inside multi-line content: tokens may contain a line break before a word
 }
 
 func (g *Gen) pick(n int) int { return g.R.Intn(n) }
@@ -64,6 +65,7 @@ func escHTML(s string) string {
 // inline is one inline token: md is its spelling, html its prescribed rendering, plain its text content (for alt).
 type inline struct {
 	md, html, plain string
+	word            bool // md starts with a letter and the token cannot start a block: a line may begin with it
 }
 
 // escape atoms: a character written as backslash escape or character reference; expected text is the character itself.
@@ -78,16 +80,16 @@ func (g *Gen) atom() inline {
 	case 0: // backslash escape
 		c := escapable[g.pick(len(escapable))]
 		g.St.add("escape:backslash")
-		return inline{"\\" + string(c), escHTML(string(c)), string(c)}
+		return inline{"\\" + string(c), escHTML(string(c)), string(c), false}
 	case 1: // named reference
 		n := namedRefs[g.pick(len(namedRefs))]
 		g.St.add("escape:named")
-		return inline{"&" + n.name + ";", escHTML(n.val), n.val}
+		return inline{"&" + n.name + ";", escHTML(n.val), n.val, false}
 	case 2: // decimal reference
 		c := escapable[g.pick(len(escapable))]
 		g.St.add("escape:decimal")
 		z := strings.Repeat("0", g.pick(3))
-		return inline{fmt.Sprintf("&#%s%d;", z, c), escHTML(string(c)), string(c)}
+		return inline{fmt.Sprintf("&#%s%d;", z, c), escHTML(string(c)), string(c), false}
 	default: // hex reference
 		c := escapable[g.pick(len(escapable))]
 		g.St.add("escape:hex")
@@ -100,7 +102,7 @@ func (g *Gen) atom() inline {
 			f = "%X"
 		}
 		z := strings.Repeat("0", g.pick(3))
-		return inline{"&#" + x + z + fmt.Sprintf(f, c) + ";", escHTML(string(c)), string(c)}
+		return inline{"&#" + x + z + fmt.Sprintf(f, c) + ";", escHTML(string(c)), string(c), false}
 	}
 }
 
@@ -111,15 +113,15 @@ func (g *Gen) wordTok() inline {
 	case 0:
 		a := g.atom()
 		w2 := g.word()
-		return inline{w + a.md + w2, w + a.html + w2, w + a.plain + w2}
+		return inline{w + a.md + w2, w + a.html + w2, w + a.plain + w2, true}
 	case 1:
 		a := g.atom()
-		return inline{w + a.md, w + a.html, w + a.plain}
+		return inline{w + a.md, w + a.html, w + a.plain, true}
 	case 2:
 		p := []string{",", ".", ";", ":", "?", "'s"}[g.pick(6)]
-		return inline{w + p, w + p, w + p}
+		return inline{w + p, w + p, w + p, true}
 	}
-	return inline{w, w, w}
+	return inline{w, w, w, true}
 }
 
 // codeSpan builds a code span whose fence length differs from every backtick run inside.
@@ -147,6 +149,18 @@ func (g *Gen) codeSpan() inline {
 		g.R.Shuffle(len(parts), func(i, j int) { parts[i], parts[j] = parts[j], parts[i] })
 	}
 	content := strings.Join(parts, " ")
+	mdContent := content
+	if g.ml && len(parts) > 1 && g.chance(1, 5) {
+		// a line ending inside a code span is converted to a space; the next line must start with a word
+		for i := len(parts) - 1; i >= 1; i-- {
+			c0 := parts[i][0]
+			if c0 >= 'a' && c0 <= 'z' {
+				mdContent = strings.Join(parts[:i], " ") + "\n" + strings.Join(parts[i:], " ")
+				g.St.add("multiline:code-span")
+				break
+			}
+		}
+	}
 	runs := map[int]bool{}
 	for i := 0; i < len(content); {
 		if content[i] == '`' {
@@ -170,7 +184,7 @@ func (g *Gen) codeSpan() inline {
 		pad = " " // one space on both sides is stripped
 	}
 	g.St.add(fmt.Sprintf("codespan:fence%d", n))
-	return inline{fence + pad + content + pad + fence, "<code>" + escHTML(content) + "</code>", content}
+	return inline{fence + pad + mdContent + pad + fence, "<code>" + escHTML(content) + "</code>", content, false}
 }
 
 type dest struct{ md, href string }
@@ -255,7 +269,7 @@ func (g *Gen) linkText(depth int) (md, html, plain string) {
 			toks = append(toks, g.wordTok())
 		}
 	}
-	return joinToks(toks)
+	return g.joinML(toks, "link-text")
 }
 
 func joinToks(toks []inline) (md, html, plain string) {
@@ -266,8 +280,58 @@ func joinToks(toks []inline) (md, html, plain string) {
 	return strings.Join(m, " "), strings.Join(h, " "), strings.Join(p, " ")
 }
 
+// joinML joins tokens like joinToks but, inside multi-line content, may put a soft or hard line break before one word token,
+// so that emphasis and link text span lines.
+func (g *Gen) joinML(toks []inline, what string) (md, html, plain string) {
+	brk := -1
+	if g.ml && len(toks) > 1 && g.chance(1, 5) {
+		var cand []int
+		for i := 1; i < len(toks); i++ {
+			if toks[i].word {
+				cand = append(cand, i)
+			}
+		}
+		if len(cand) > 0 {
+			brk = cand[g.pick(len(cand))]
+		}
+	}
+	var m, h, p strings.Builder
+	for i, t := range toks {
+		if i > 0 {
+			switch {
+			case i == brk && g.chance(1, 4):
+				if g.chance(1, 2) {
+					m.WriteString("  \n")
+				} else {
+					m.WriteString("\\\n")
+				}
+				h.WriteString("<br />\n")
+				g.St.add("multiline:" + what + "-hardbreak")
+			case i == brk:
+				m.WriteString("\n")
+				h.WriteString("\n")
+				g.St.add("multiline:" + what)
+			default:
+				m.WriteString(" ")
+				h.WriteString(" ")
+			}
+			p.WriteString(" ")
+		}
+		m.WriteString(t.md)
+		h.WriteString(t.html)
+		p.WriteString(t.plain)
+	}
+	return m.String(), h.String(), p.String()
+}
+
 func (g *Gen) link(depth int, image bool) inline {
+	// no line breaks inside an image description: how they appear in alt is only recommended by the specification
+	saved := g.ml
+	if image {
+		g.ml = false
+	}
 	tm, th, tp := g.linkText(depth)
+	g.ml = saved
 	if !image && g.chance(1, 6) {
 		im := g.link(depth+1, true)
 		tm, th, tp = tm+" "+im.md, th+" "+im.html, tp+" "+im.plain
@@ -305,19 +369,19 @@ func (g *Gen) link(depth int, image bool) inline {
 	}
 	if image {
 		g.St.add("image")
-		return inline{md, `<img src="` + href + `" alt="` + escHTML(tp) + `"` + tattr + ` />`, tp}
+		return inline{md, `<img src="` + href + `" alt="` + escHTML(tp) + `"` + tattr + ` />`, tp, false}
 	}
-	return inline{md, `<a href="` + href + `"` + tattr + `>` + th + `</a>`, tp}
+	return inline{md, `<a href="` + href + `"` + tattr + `>` + th + `</a>`, tp, false}
 }
 
 var autolinks = []inline{
-	{"<http://foo.bar.baz/test?q=hello&id=22&boolean>", `<a href="http://foo.bar.baz/test?q=hello&amp;id=22&amp;boolean">http://foo.bar.baz/test?q=hello&amp;id=22&amp;boolean</a>`, ""},
-	{"<irc://foo.bar:2233/baz>", `<a href="irc://foo.bar:2233/baz">irc://foo.bar:2233/baz</a>`, ""},
-	{"<MAILTO:FOO@BAR.BAZ>", `<a href="MAILTO:FOO@BAR.BAZ">MAILTO:FOO@BAR.BAZ</a>`, ""},
-	{"<foo@bar.example.com>", `<a href="mailto:foo@bar.example.com">foo@bar.example.com</a>`, ""},
-	{"<foo+special@Bar.baz-bar0.com>", `<a href="mailto:foo+special@Bar.baz-bar0.com">foo+special@Bar.baz-bar0.com</a>`, ""},
-	{"<https://example.com/\\[\\>", `<a href="https://example.com/%5C%5B%5C">https://example.com/\[\</a>`, ""},
-	{"<a+b+c:d>", `<a href="a+b+c:d">a+b+c:d</a>`, ""},
+	{"<http://foo.bar.baz/test?q=hello&id=22&boolean>", `<a href="http://foo.bar.baz/test?q=hello&amp;id=22&amp;boolean">http://foo.bar.baz/test?q=hello&amp;id=22&amp;boolean</a>`, "", false},
+	{"<irc://foo.bar:2233/baz>", `<a href="irc://foo.bar:2233/baz">irc://foo.bar:2233/baz</a>`, "", false},
+	{"<MAILTO:FOO@BAR.BAZ>", `<a href="MAILTO:FOO@BAR.BAZ">MAILTO:FOO@BAR.BAZ</a>`, "", false},
+	{"<foo@bar.example.com>", `<a href="mailto:foo@bar.example.com">foo@bar.example.com</a>`, "", false},
+	{"<foo+special@Bar.baz-bar0.com>", `<a href="mailto:foo+special@Bar.baz-bar0.com">foo+special@Bar.baz-bar0.com</a>`, "", false},
+	{"<https://example.com/\\[\\>", `<a href="https://example.com/%5C%5B%5C">https://example.com/\[\</a>`, "", false},
+	{"<a+b+c:d>", `<a href="a+b+c:d">a+b+c:d</a>`, "", false},
 }
 
 var rawInline = []string{`<span class="x">`, `</span>`, `<br/>`, `<a  href="u"  title='t' >`, `<!-- a comment -->`, `<?php echo 1; ?>`, `<![CDATA[>&<]]>`, `<!ELEMENT br EMPTY>`, `<b2 data="foo" >`, `<a href="\*">`}
@@ -360,10 +424,10 @@ func (g *Gen) emphWith(depth int, allowLinks bool, avoid byte, wordEdges bool) i
 		default:
 			// plain word at the edges keeps both runs strictly flanking
 			w := g.word()
-			toks = append(toks, inline{w, w, w})
+			toks = append(toks, inline{w, w, w, true})
 		}
 	}
-	m, h, p := joinToks(toks)
+	m, h, p := g.joinML(toks, "emphasis")
 	d := string(ch)
 	tag := "em"
 	if strong {
@@ -371,7 +435,7 @@ func (g *Gen) emphWith(depth int, allowLinks bool, avoid byte, wordEdges bool) i
 		tag = "strong"
 	}
 	g.St.add("emphasis:" + d)
-	return inline{d + m + d, "<" + tag + ">" + h + "</" + tag + ">", p}
+	return inline{d + m + d, "<" + tag + ">" + h + "</" + tag + ">", p, false}
 }
 
 // line is one line of paragraph-like content: it starts with a word.
@@ -398,14 +462,14 @@ func (g *Gen) inlineLine(rich bool) inline {
 		case x < 18:
 			r := rawInline[g.pick(len(rawInline))]
 			g.St.add("rawhtml-inline")
-			toks = append(toks, inline{r, r, ""})
+			toks = append(toks, inline{r, r, "", false})
 		default:
 			a := g.atom()
 			toks = append(toks, a)
 		}
 	}
 	m, h, p := joinToks(toks)
-	return inline{m, h, p}
+	return inline{m, h, p, false}
 }
 
 // content is 1..n lines joined by soft or hard breaks.
@@ -421,8 +485,11 @@ func (g *Gen) content(maxLines int, rich bool) content {
 	var c content
 	var hb strings.Builder
 	for i := 0; i < n; i++ {
+		g.ml = true
 		l := g.inlineLine(rich)
+		g.ml = false
 		md := l.md
+		c.soft += strings.Count(md, "\n")
 		hb.WriteString(l.html)
 		if i < n-1 {
 			switch g.pick(6) {
@@ -445,7 +512,7 @@ func (g *Gen) content(maxLines int, rich bool) content {
 				g.St.add("softbreak")
 			}
 		}
-		c.lines = append(c.lines, md)
+		c.lines = append(c.lines, strings.Split(md, "\n")...)
 	}
 	c.html = hb.String()
 	return c
